@@ -31,6 +31,7 @@ type FlowOpts struct {
 	BigPayload         int  // permille of payloads in the KiB range
 	BreakW             int  // weight of the environment action "break connection"
 	PartW              int  // weight of the environment action "partition" (the connection goes silent)
+	HalfCloseW         int  // share (against 4+4) of breaks that are a half-close: EOF for the reader while writes block
 	FaultFrom          int  // faults only from this step on (the budget otherwise drains on the first opportunities)
 	InWindow           int  // the broker's in-flight window: no new message while that many QoS 1/2 transactions are open (0: unlimited)
 	ReuseIDs           bool // the broker reuses packet identifiers as soon as their transaction is complete
@@ -363,6 +364,7 @@ func drawFlowOpts(t *Tape, thorough bool) FlowOpts {
 	}
 	if t.Flip("f-break", 600) {
 		o.BreakW = 1 + t.Draw("breakw", 3)
+		o.HalfCloseW = []int{0, 0, 1, 3}[t.Draw("halfclosew", 4)]
 	}
 	if t.Flip("f-part", 250) {
 		o.PartW = 1 + t.Draw("partw", 2)
@@ -878,7 +880,7 @@ func (f *Flow) env() []Action {
 	}
 	if c := s.Cur(); c != nil && c.Alive() && w.FaultOK() && f.O.BreakW > 0 {
 		acts = append(acts, Action{Name: "break", Weight: f.O.BreakW, Run: func() {
-			kind := 1 + w.Tape.Draw("breakkind", 2)
+			kind := 1 + w.Tape.Pick("breakkind", []int{4, 4, f.O.HalfCloseW})
 			w.Fault(fmt.Sprintf("break_kind%d", kind))
 			if w.Broker.Pending(c) && !w.Tape.Flip("lose", 400) {
 				w.Broker.Consume(c)
@@ -890,6 +892,7 @@ func (f *Flow) env() []Action {
 		acts = append(acts, Action{Name: "partition", Weight: f.O.PartW, Run: func() {
 			w.Fault("partition")
 			c.Silent = true
+			c.WriteBlocked = w.Tape.Flip("part-wblock", 400) // the send buffer is full, too
 			c.SilentStep = w.Steps
 			c.SilentLimit = c.rdCur + w.Tape.Draw("partcut", c.avail()+1)
 			if c.CutInsidePacket() {
@@ -907,6 +910,20 @@ func (f *Flow) env() []Action {
 			acts = append(acts, Action{Name: "partition-heal", Weight: 1 + 4*b2i(w.FaultsOff), Run: func() {
 				w.Trouble()
 				w.Ev("net", c.id, "conn%d: the partition ends with a reset", c.id)
+				c.Break(2)
+			}})
+		}
+	}
+	if c := s.Cur(); c != nil && c.Broken == 3 && !c.closedLocal {
+		// the half-closed peer resets eventually (a fault like any other,
+		// from the budget). Without budget that is withheld once the read
+		// routine has been handed the end of the stream.
+		// (the reader was handed the end of the stream: from then on the
+		// client knows and has to clean up by itself)
+		readerBlocked := !c.EOFSeen
+		if w.FaultOK() || readerBlocked {
+			acts = append(acts, Action{Name: "peer-reset", Weight: 1 + 4*b2i(w.FaultsOff), Run: func() {
+				w.Ev("net", c.id, "conn%d: the half-closed peer resets", c.id)
 				c.Break(2)
 			}})
 		}
